@@ -39,6 +39,7 @@ func (my *taskCallback) Get1() any {
 }
 
 func (my *taskCallback) Get2() (any, error) {
+	verifYieldT(VerifSiteGetWait, my)
 	my.wg.Wait()
 	return my.result, my.err
 }
@@ -52,16 +53,20 @@ func (my *taskCallback) run(ctx context.Context) {
 
 	for i := 0; i < my.retry; i++ {
 		my.runTaskOnce(ctx)
+		verifYieldT(VerifSiteReadErr, my)
 		if my.err == nil { // my.err是否是context.DeadlineExceeded, 都应该retry
+			verifYieldT(VerifSiteWgDone, my)
 			return
 		}
 	}
 
 	// 处理err情况
+	verifYieldT(VerifSiteOnError, my)
 	var onError = my.taskOptions.onError
 	if onError != nil {
 		onError(my.err)
 	}
+	verifYieldT(VerifSiteWgDone, my)
 }
 
 func (my *taskCallback) runTaskOnce(ctx context.Context) {
@@ -74,20 +79,27 @@ func (my *taskCallback) runTaskOnce(ctx context.Context) {
 	my.pool.sendInnerCallback(func() {
 		var result, err = my.handler(ctx1)
 
+		verifYieldT(VerifSiteCtxTest, my)
 		select {
 		case <-ctx1.Done(): // 代码走到这里的时候, 一定是超时了, 本次attempt按超时处理
+			verifYieldT(VerifSiteAttemptSendDead, my)
 			doneChan <- attemptResult{nil, context.DeadlineExceeded}
 		default:
+			verifYieldT(VerifSiteAttemptSendRes, my)
 			doneChan <- attemptResult{result, err}
 		}
 	})
 
+	verifYieldT(VerifSiteDispatchSelect, my)
 	select {
 	case r := <-doneChan:
+		verifYieldT(VerifSiteStoreResult, my)
 		my.result, my.err = r.result, r.err
 	case <-ctx1.Done():
+		verifYieldT(VerifSiteStoreTimeout, my)
 		my.result, my.err = nil, context.DeadlineExceeded
 	}
+	verifYieldT(VerifSiteCancel, my)
 }
 
 type attemptResult struct {
